@@ -219,6 +219,43 @@ fn gen_case(r: &mut Rng, eng: &str, disrupt: bool, len: usize) -> String {
     format!("eng={} t0={}|{}", eng, 1000 + r.below(3), ops.join(";"))
 }
 
+/// TTL life-cycle scenario: TTL put, optional overwrite / failing CAS / other-key noise, optional
+/// disruption, then reads before and after the deadline with cleanups in between.
+fn gen_scenario(r: &mut Rng, eng: &str, disrupt: bool) -> String {
+    let k = 1 + r.below(3);
+    let t = *r.pick(&[1u64, 2, 3, 5]);
+    let mut ops: Vec<String> = vec![];
+    if r.chance(1, 3) { ops.push(format!("put,{},9,{}", k, ttl_choice(r))); }
+    ops.push(format!("put,{},1,{}", k, t));
+    let mut mid: Vec<String> = vec![];
+    match r.below(8) {
+        0 => mid.push(format!("put,{},2,-", k)),
+        1 => mid.push(format!("cas,{},1,2", k)),
+        2 => mid.push(format!("cas,{},7,2", k)), // fails: keeps the TTL
+        3 => mid.push(format!("del,{}", k)),
+        4 => mid.push(format!("put,{},2,{}", k, r.pick(&[1u64, 2, 4, 8]))), // re-put with a new TTL
+        5 => { mid.push(format!("del,{}", k)); mid.push(format!("put,{},3,-", k)); }
+        _ => {}
+    }
+    if r.chance(1, 2) { mid.push(format!("put,{},5,{}", k + 1, ttl_choice(r))); }
+    if r.chance(1, 3) { mid.push("cleanup".into()); }
+    if r.chance(1, 4) { mid.push("ckpt".into()); }
+    if r.chance(1, 2) { mid.push(format!("adv,{}", r.below(t + 1))); }
+    if disrupt {
+        let d = *r.pick(&["restart", "srestart", "crash", "snap;adv,1;install", "snap;install", "ckpt;crash"]);
+        let pos = r.below(mid.len() as u64 + 1) as usize;
+        mid.insert(pos, d.to_string());
+    }
+    ops.extend(mid);
+    ops.push(format!("get,{}", k));
+    ops.push(format!("adv,{}", r.pick(&[1u64, 2, 3, 6])));
+    if r.chance(1, 3) && disrupt { ops.push(r.pick(&["restart", "crash"]).to_string()); }
+    ops.push("cleanup".into());
+    ops.push(format!("get,{}", k));
+    if r.chance(1, 2) { ops.push(format!("adv,{}", r.pick(&[1u64, 5, 10]))); ops.push("cleanup".into()); ops.push(format!("get,{}", k)); }
+    format!("eng={} t0={}|{}", eng, 1000 + r.below(3), ops.join(";"))
+}
+
 /// all op lists over one key built from a small alphabet (thorough tier: small-scope enumeration)
 fn enumerate(eng: &str, out: &mut Vec<String>) {
     let alpha = ["put,1,1,1", "put,1,2,-", "put,1,3,2", "del,1", "cas,1,1,4", "cas,1,-,5", "adv,1", "adv,2", "cleanup"];
@@ -238,10 +275,14 @@ fn generate(r: &mut Rng, n: usize, tier: &str) -> Vec<String> {
     let mut out = vec![];
     // RocksDB cases are ~20x more expensive (DB open): 1 in 5
     for i in 0..n {
-        let eng = if i % 5 == 4 { "rocks" } else { "file" };
+        let eng = if i % 8 == 7 { "rocks" } else { "file" };
         let disrupt = i % 3 == 2;
-        let len = 3 + r.below(if disrupt { 14 } else { 18 }) as usize;
-        out.push(gen_case(r, eng, disrupt, len));
+        if i % 2 == 0 {
+            out.push(gen_scenario(r, eng, disrupt));
+        } else {
+            let len = 3 + r.below(if disrupt { 14 } else { 18 }) as usize;
+            out.push(gen_case(r, eng, disrupt, len));
+        }
     }
     // malformed / boundary stream
     out.push("eng=file t0=1000|install;get,1".into());
@@ -249,6 +290,9 @@ fn generate(r: &mut Rng, n: usize, tier: &str) -> Vec<String> {
     out.push("eng=file t0=1000|".into());
     out.push("eng=file t0=1000|put,1,1,0;get,1;cleanup;get,1".into());
     out.push("eng=rocks t0=1000|put,1,1,0;get,1;cleanup;get,1".into());
+    // exactly 10 leased keys: the 10-entry sample of may_have_expired_keys still sees every entry
+    out.push(format!("eng=file t0=1000|{};put,11,1,1;adv,2;cleanup;get,11", (1..=9).map(|i| format!("put,{},1,100", i)).collect::<Vec<_>>().join(";")));
+    out.push("eng=file t0=1000|put,1,1,4611686018427387903;adv,5;cleanup;get,1".into());
     if tier == "thorough" {
         enumerate("file", &mut out);
     }
